@@ -342,15 +342,16 @@ def integer_siblings(ctx):
             for nflag in (0, 1):
                 flags = (FL_D if direct else 0) | (FL_N if nflag else 0) | FL_R | FL_W
                 for size in (w, w + 1 if w < 4 else 2):
+                  for stored_r in (stored, 0, mask):
                     inputs = {'obj->Key': 0x20000000 | flags, 'node->NodeId': nodeid, 'size': size,
-                              'obj->Data': stored if direct else 0x7000, '*obj->Data': stored}
+                              'obj->Data': stored_r if direct else 0x7000, '*obj->Data': stored_r}
                     trs = _run(m, rd, inputs, filt=lambda k, fld: True)
-                    site = '%s direct=%d nodeid=%d size=%d' % (rd, direct, nflag, size)
+                    site = '%s direct=%d nodeid=%d size=%d stored=%s' % (rd, direct, nflag, size, hex(stored_r))
                     bad = None
                     for t in trs:
                         outs = [e[2] for e in t.stores() if e[1].startswith('*buffer')]
                         if size == w:
-                            exp = (stored + (nodeid if nflag else 0)) & mask
+                            exp = (stored_r + (nodeid if nflag else 0)) & mask
                             if outs != [exp] or t.ret != NONE:
                                 bad = 'reads %s, required %d (stored value%s)' % (outs, exp, ' + node id' if nflag else '')
                         else:
@@ -383,14 +384,16 @@ def integer_siblings(ctx):
                             _rep(ctx, wr, site, bad, 'RF10-integer', ['C06', 'C12'])
                     if size == w:
                         # boundary values and a value-independence run: with the written value left unbound no path
-                        # may refuse the write or skip the store (any guard on the value itself splits the paths)
+                        # may refuse the write or skip the store (any guard on the value itself splits the paths);
+                        # the value currently stored is a class of its own: a directly stored 0 makes obj->Data == 0
+                      for stored2 in (stored, 0, mask):
                         for newv in (0, 1, mask, None):
                             inputs = {'obj->Key': 0x20000000 | flags, 'node->NodeId': nodeid, 'size': size,
-                                      'obj->Data': stored if direct else 0x7000, '*obj->Data': stored}
+                                      'obj->Data': stored2 if direct else 0x7000, '*obj->Data': stored2}
                             if newv is not None:
                                 inputs['*buffer'] = newv
                             trs = _run(m, wr, inputs, filt=lambda k, fld: True)
-                            site = '%s direct=%d nodeid=%d value=%s' % (wr, direct, nflag, 'any' if newv is None else hex(newv))
+                            site = '%s direct=%d nodeid=%d stored=%s value=%s' % (wr, direct, nflag, hex(stored2), 'any' if newv is None else hex(newv))
                             bad = None
                             tgt = 'obj->Data' if direct else '*obj->Data'
                             for t in trs:
